@@ -365,10 +365,10 @@ theorem domOr_cons_isSome {V : Type} (n : Num V) (dom : Option (Box2 V)) (f : Fr
 
 theorem read2dRows_spec {V T : Type} [DecidableEq V] (c : Codec V T) (n : Num V) (hF : Faithful c n)
     (near degen : Pt2 V → Pt2 V → Bool) (fs : List (Frac2 V)) (hne : fs ≠ []) (skip : Nat)
-    (dom : Option (Box2 V))
+    (dom : Option (Box2 V)) (mx : Option Nat)
     (hnear : ∀ p ∈ endpoints fs, ∀ q ∈ endpoints fs, near p q = true → p = q)
     (hlen : ∀ f ∈ fs, f.a ≠ f.b) (hdeg : ∀ f ∈ fs, degen f.a f.b = false) :
-    read2dRows n near degen (valsSpec n 0 fs) ⟨skip, none, none, false, dom⟩
+    read2dRows n near degen (valsSpec n 0 fs) ⟨skip, none, mx, false, dom⟩
       = .ok ⟨fs.map strip, domOr n dom (endpoints fs), (List.range' 0 fs.length).map Int.ofNat⟩ := by
   cases fs with
   | nil => exact absurd rfl hne
@@ -1301,6 +1301,109 @@ theorem readFracsE_rows {V T : Type} (c : Codec V T) (n : Num V) (hF : Faithful 
       cases mk (x :: xs) with
       | error e => rfl
       | ok b => cases mapE mk ps <;> rfl
+
+
+
+/-! ### concrete tolerances over Rat; max_num_fracs -/
+
+
+theorem sq_ge (tol e : Rat) (h0 : 0 ≤ tol) (h : tol < e) : tol * tol ≤ e * e := by
+  have h1 : tol * tol ≤ tol * e := Rat.mul_le_mul_of_nonneg_left (by grind) h0
+  have h2 : tol * e ≤ e * e := Rat.mul_le_mul_of_nonneg_right (by grind) (by grind)
+  grind
+
+theorem sq_nonneg' (d : Rat) : 0 ≤ d * d := by
+  by_cases h : 0 ≤ d
+  · exact Rat.mul_nonneg h h
+  · have : 0 ≤ (-d) * (-d) := Rat.mul_nonneg (by grind) (by grind)
+    grind
+
+theorem sq_ge_abs (tol d : Rat) (h0 : 0 ≤ tol) (h : tol < absQ d) : tol * tol ≤ d * d := by
+  unfold absQ at h
+  split at h
+  · have := sq_ge tol (-d) h0 h
+    grind
+  · exact sq_ge tol d h0 h
+
+theorem absQ_sub_comm (a b : Rat) : absQ (a - b) = absQ (b - a) := by
+  unfold absQ
+  grind
+
+theorem closeQ_discrete (tol : Rat) (fs : List (Frac2 Rat)) (hs : Separated tol fs) :
+    ∀ p ∈ endpoints fs, ∀ q ∈ endpoints fs, closeQ tol p q = true → p = q := by
+  intro p hp q hq hc
+  by_contra hne
+  simp only [closeQ, Bool.and_eq_true, decide_eq_true_eq] at hc
+  rcases hs p hp q hq hne with h | h
+  · rw [absQ_sub_comm] at h; grind
+  · rw [absQ_sub_comm] at h; grind
+
+theorem nearQ_discrete (tol : Rat) (h0 : 0 ≤ tol) (fs : List (Frac2 Rat)) (hs : Separated tol fs) :
+    ∀ p ∈ endpoints fs, ∀ q ∈ endpoints fs, nearQ tol p q = true → p = q := by
+  intro p hp q hq hc
+  by_contra hne
+  simp only [nearQ, decide_eq_true_eq] at hc
+  have n1 := sq_nonneg' (q.1 - p.1)
+  have n2 := sq_nonneg' (q.2 - p.2)
+  rcases hs p hp q hq hne with h | h
+  · rw [absQ_sub_comm] at h
+    have := sq_ge_abs tol _ h0 h
+    grind
+  · rw [absQ_sub_comm] at h
+    have := sq_ge_abs tol _ h0 h
+    grind
+
+theorem valsSpec_take {V : Type} (n : Num V) (s k : Nat) (fs : List (Frac2 V)) :
+    (valsSpec n s fs).take k = valsSpec n s (fs.take k) := by
+  induction fs generalizing s k with
+  | nil => simp [valsSpec]
+  | cons f fs ih =>
+    cases k with
+    | zero => simp [valsSpec]
+    | succ k => simp only [valsSpec, List.take_succ_cons, ih]
+
+theorem endpoints_take_subset {V : Type} (k : Nat) (fs : List (Frac2 V)) :
+    ∀ p ∈ endpoints (fs.take k), p ∈ endpoints fs := by
+  induction fs generalizing k with
+  | nil => intro p hp; simp [endpoints] at hp
+  | cons f fs ih =>
+    cases k with
+    | zero => intro p hp; simp [endpoints] at hp
+    | succ k =>
+      intro p hp
+      simp only [List.take_succ_cons, endpoints, List.mem_cons] at hp ⊢
+      rcases hp with h | h | h
+      · exact Or.inl h
+      · exact Or.inr (Or.inl h)
+      · exact Or.inr (Or.inr (ih k p h))
+
+
+
+/-! ### the dictionary built from the (name, column) pairs -/
+
+
+theorem foldl_nokey {V : Type} (l : List (Name × List V)) (k : Name) (acc : Option (List V))
+    (h : ∀ p ∈ l, p.1 ≠ k) :
+    l.foldl (fun acc p => if p.1 = k then some p.2 else acc) acc = acc := by
+  induction l generalizing acc with
+  | nil => rfl
+  | cons d t ih =>
+    have hd := h d List.mem_cons_self
+    simp only [List.foldl_cons, hd, if_false]
+    exact ih acc (fun p hp => h p (List.mem_cons_of_mem _ hp))
+
+theorem foldl_key {V : Type} (l : List (Name × List V)) (q : Name × List V) (acc : Option (List V))
+    (hq : q ∈ l) (hnd : (l.map (·.1)).Nodup) :
+    l.foldl (fun acc p => if p.1 = q.1 then some p.2 else acc) acc = some q.2 := by
+  induction l generalizing acc with
+  | nil => cases hq
+  | cons d t ih =>
+    have hn : d.1 ∉ t.map (·.1) ∧ (t.map (·.1)).Nodup := List.nodup_cons.mp hnd
+    rcases List.mem_cons.mp hq with rfl | hq'
+    · simp only [List.foldl_cons, if_true]
+      exact foldl_nokey t q.1 _ (fun p hp he => hn.1 (he ▸ List.mem_map_of_mem hp))
+    · simp only [List.foldl_cons]
+      exact ih _ hq' hn.2
 
 
 end PorepyVerif.C47
